@@ -62,10 +62,13 @@ Proof. intros. unfold prim1. apply sat_do; [assumption | intro; apply sat_ret]. 
 
 (* case analysis of one primitive step *)
 Ltac prim_cases :=
-  unfold run_prim, do_close, pop_decision;
+  unfold run_prim, do_close, do_write, do_read, set_pipe, pop_decision;
   repeat match goal with
          | |- context [if ?c then _ else _] => destruct c eqn:?
          | |- context [match ?x with _ => _ end] => destruct x eqn:?
+         | H : (if ?c then _ else _) = (_, _) |- _ => destruct c eqn:?
+         | H : match ?x with _ => _ end = (_, _) |- _ => destruct x eqn:?
+         | H : (_, _) = (_, _) |- _ => inversion H; subst; clear H
          end; simpl in *.
 
 Ltac fin :=
@@ -109,13 +112,21 @@ Qed.
 
 (* J: nothing blocked so far and an open transport has a deadline *)
 Definition Jinv (w : world) : Prop :=
-  opened (w_conn w) = true /\ hung (w_conn w) = false /\ (copen (w_conn w) = true -> armed (w_conn w) = true).
+  opened (w_conn w) = true /\ hung (w_conn w) = false /\ (copen (w_conn w) = true -> armed (w_conn w) = true) /\
+  (* the textproto pipeline: no command waits on an unfinished predecessor -- every id handed out has had its
+     EndResponse, unless its write failed, and then every later write fails too *)
+  endresp (w_cs w) = true /\
+  (pipe_out (w_cs w) = O \/ copen (w_conn w) = false \/ sopen (w_srv w) = false).
 
 Lemma prim_J : forall B (p : prim B) w, Jinv w -> Jinv (snd (run_prim p w)).
 Proof.
-  intros B p w (H1 & H2 & H3). unfold Jinv in *.
+  intros B p w (H1 & H2 & H3 & H4 & H5). unfold Jinv in *.
   destruct p; prim_cases; repeat split; auto; try congruence; intros; try discriminate;
-    fin.
+    fin; try (destruct H5 as [H5 | [H5 | H5]]; congruence); try (right; right; assumption);
+    try (right; left; reflexivity); try (left; reflexivity);
+    try (right; left; assumption); try (left; assumption);
+    try (rewrite H4 in *; simpl in *; discriminate);
+    try (destruct H5 as [H5 | [H5 | H5]]; [left; exact H5 | congruence | congruence]).
 Qed.
 
 (* T: inside TLS no cleartext command is added *)
@@ -126,7 +137,7 @@ Lemma prim_T : forall C B (p : prim B) w, Tinv C w -> Tinv C (snd (run_prim p w)
 Proof.
   intros C B p w (H1 & H2 & H3). unfold Tinv in *.
   destruct p; prim_cases; repeat split; auto; try congruence; fin;
-    try (rewrite H2; simpl; assumption).
+    try (rewrite H2; simpl; assumption); try (rewrite H2; simpl; auto; congruence).
 Qed.
 
 (* ------------------------------------------------------------------------------------------------ *)
@@ -325,13 +336,14 @@ Qed.
 Definition Pw (S : verb -> bool) : forall B, prim B -> bool :=
   fun B p => match p with
              | PWrite v => S v
+             | PCmd _ v => S v
              | PRead | PGetCs | PSetHello _ | PSetExt _ | PArm => true
              | _ => false
              end.
 
 (* [Pany S]: any primitive, but writes only of verbs in S *)
 Definition Pany (S : verb -> bool) : forall B, prim B -> bool :=
-  fun B p => match p with PWrite v => S v | _ => true end.
+  fun B p => match p with PWrite v => S v | PCmd _ v => S v | _ => true end.
 
 Lemma Pw_Pany : forall S B (p : prim B), Pw S B p = true -> Pany S B p = true.
 Proof. intros S B p; destruct p; simpl; auto. Qed.
@@ -467,17 +479,17 @@ Lemma run_get : forall A (k : cstate -> prog A) w, run (bind (prim1 PGetCs) k) w
 Proof. reflexivity. Qed.
 
 (* Quit *)
-Lemma write_true_trace : forall v w w1, run_prim (PWrite v) w = (true, w1) ->
-  w_trace w1 = ECmd v (negb (ctls (w_conn w))) :: w_trace w.
+Lemma do_write_true_trace : forall v w w1, do_write v w = (true, w1) ->
+  w_trace w1 = ECmd v (negb (ctls (w_conn w))) :: w_trace w /\ w_cs w1 = w_cs w.
 Proof.
-  intros v w w1 H. unfold run_prim in H.
+  intros v w w1 H. unfold do_write in H.
   destruct (negb (copen (w_conn w))); [discriminate|]. destruct (negb (sopen (w_srv w))); [discriminate|].
-  inversion H; subst. reflexivity.
+  inversion H; subst. split; reflexivity.
 Qed.
 
-Lemma read_last_cmd : forall w r w1, run_prim PRead w = (r, w1) -> last_cmd (w_trace w1) = last_cmd (w_trace w).
+Lemma do_read_last_cmd : forall w r w1, do_read w = (r, w1) -> last_cmd (w_trace w1) = last_cmd (w_trace w).
 Proof.
-  intros w r w1 H. unfold run_prim in H.
+  intros w r w1 H. unfold do_read in H.
   destruct (negb (copen (w_conn w))); [inversion H; subst; reflexivity|].
   destruct (queue (w_srv w)); [ destruct (negb (sopen (w_srv w))); [|destruct (armed (w_conn w))] | ];
     inversion H; subst; reflexivity.
@@ -485,11 +497,13 @@ Qed.
 
 Lemma cmd_ok_last : forall e v w rp w1, run (cmd e v) w = (Ok rp, w1) -> last_cmd (w_trace w1) = Some v.
 Proof.
-  intros e v w rp w1 H. unfold cmd, prim1 in H. simpl in H.
-  destruct (run_prim (PWrite v) w) as [ok w2] eqn:Ew. destruct ok.
-  - simpl in H. destruct (run_prim PRead w2) as [rr w3] eqn:Er. simpl in H. inversion H; subst.
-    rewrite (read_last_cmd _ _ _ Er). rewrite (write_true_trace _ _ _ Ew). reflexivity.
-  - simpl in H. discriminate.
+  intros e v w rp w1 H. unfold cmd, prim1 in H. simpl in H. unfold run_prim in H.
+  destruct (do_write v w) as [ok w2] eqn:Ew. destruct ok; simpl in H; [ | inversion H ].
+  destruct (do_write_true_trace _ _ _ Ew) as [Ht _].
+  destruct (pipe_out (w_cs w2)); [ | inversion H ].
+  destruct (do_read w2) as [rr w3] eqn:Er. pose proof (do_read_last_cmd _ _ _ Er) as Hl.
+  rewrite Ht in Hl. simpl in Hl.
+  destruct (endresp (w_cs w3) || is_reply rr); inversion H; subst; simpl; exact Hl.
 Qed.
 
 Lemma quit_ok : forall w u w', run quit w = (Ok u, w') ->
@@ -560,103 +574,127 @@ Qed.
 (* ------------------------------------------------------------------------------------------------ *)
 (* C17: no read blocks for ever *)
 
-Lemma arm_J : forall w, opened (w_conn w) = true -> hung (w_conn w) = false -> Jinv (snd (run_prim PArm w)).
+(* the pipeline of c.Text is in step: every id handed out has had its EndResponse (or no write can succeed any more) *)
+Definition PipeOk (w : world) : Prop :=
+  endresp (w_cs w) = true /\
+  (pipe_out (w_cs w) = O \/ copen (w_conn w) = false \/ sopen (w_srv w) = false).
+
+Lemma arm_J : forall w, opened (w_conn w) = true -> hung (w_conn w) = false -> PipeOk w -> Jinv (snd (run_prim PArm w)).
 Proof.
-  intros w Ho Hh. unfold run_prim. destruct (copen (w_conn w)) eqn:Ec; simpl; unfold Jinv; simpl; repeat split; auto.
-  intros; congruence.
+  intros w Ho Hh [He Hp]. unfold run_prim. destruct (copen (w_conn w)) eqn:Ec; simpl; unfold Jinv; simpl; repeat split; auto;
+    try (intros; congruence); try (destruct Hp as [Hp | [Hp | Hp]]; auto; congruence).
 Qed.
 
 Lemma dial_J : forall fuel cfg w r w', fx_arm cfg = true -> w_conn w = conn0 ->
+  endresp (w_cs w) = true -> pipe_out (w_cs w) = O ->
   run (dial fuel cfg) w = (r, w') ->
   hung (w_conn w') = false /\ (forall u, r = Ok u -> Jinv w').
 Proof.
-  intros fuel cfg w r w' Hf H0 H. rewrite dial_unfold in H.
+  intros fuel cfg w r w' Hf H0 He Hp H. rewrite dial_unfold in H.
   sx H. pose proof (connect2_spec _ _ _ _ E H0) as Hc. clear E.
   destruct a as [e | ].
   - simpl in H. inversion H; subst. destruct Hc as [Hc _]. rewrite Hc. simpl. split; [reflexivity | intros; discriminate].
-  - destruct Hc as (Ho & _ & Hh & _).
+  - destruct Hc as (Ho & _ & Hh & _ & _ & Hcs).
     sx H. unfold arm_opt in E. rewrite Hf in E. unfold prim1 in E. simpl in E.
     destruct (run_prim PArm w0) as [ok wa] eqn:Ea. simpl in E. inversion E; subst; clear E.
-    pose proof (arm_J w0 Ho Hh) as HJ. rewrite Ea in HJ. simpl in HJ.
+    assert (HP : PipeOk w0) by (split; [ rewrite Hcs; exact He | left; rewrite Hcs; exact Hp ]).
+    pose proof (arm_J w0 Ho Hh HP) as HJ. rewrite Ea in HJ. simpl in HJ.
     pose proof (run_inv _ prim_J _ (dial_rest fuel cfg) w1 HJ) as HJ2. rewrite H in HJ2. simpl in HJ2.
     split; [ apply HJ2 | intros; exact HJ2 ].
 Qed.
 
 Lemma check_conn_J : forall cfg w r w', fx_arm cfg = true ->
-  opened (w_conn w) = true -> hung (w_conn w) = false ->
+  opened (w_conn w) = true -> hung (w_conn w) = false -> PipeOk w ->
   run (check_conn cfg) w = (r, w') ->
   opened (w_conn w') = true /\ hung (w_conn w') = false /\ (forall u, r = Ok u -> Jinv w').
 Proof.
-  intros cfg w r w' Hf Ho Hh H. unfold check_conn in H. rewrite run_get in H. rewrite Hf in H.
+  intros cfg w r w' Hf Ho Hh HP H. unfold check_conn in H. rewrite run_get in H. rewrite Hf in H.
   destruct (connected (w_cs w)); cbn [negb run] in H.
-  2:{ inversion H; subst. repeat split; auto. intros; discriminate. }
+  2:{ inversion H; subst. repeat split; auto. all: try (intros; discriminate). }
   unfold update_deadline in H. rewrite run_bind in H. unfold prim1 in H. cbn [run] in H.
   destruct (run_prim PArm w) as [ok wa] eqn:Ea.
-  pose proof (arm_J w Ho Hh) as HJ. rewrite Ea in HJ. simpl in HJ.
+  pose proof (arm_J w Ho Hh HP) as HJ. rewrite Ea in HJ. simpl in HJ.
   match type of H with run ?m wa = _ => pose proof (run_inv _ prim_J _ m wa HJ) as HJ2 end.
-  rewrite H in HJ2. simpl in HJ2. destruct HJ2 as (A & B & C). repeat split; auto.
+  rewrite H in HJ2. simpl in HJ2. split; [ apply HJ2 | split; [ apply HJ2 | intros; exact HJ2 ] ].
 Qed.
 
 Lemma send_batch_no_hang : forall cfg msgs w, fx_arm cfg = true ->
-  opened (w_conn w) = true -> hung (w_conn w) = false ->
+  opened (w_conn w) = true -> hung (w_conn w) = false -> PipeOk w ->
   hung (w_conn (snd (run (send_batch cfg msgs) w))) = false.
 Proof.
-  intros cfg msgs w Hf Ho Hh. unfold send_batch. rewrite run_bind.
+  intros cfg msgs w Hf Ho Hh HP. unfold send_batch. rewrite run_bind.
   destruct (run (check_conn cfg) w) as [c w1] eqn:E.
-  destruct (check_conn_J _ _ _ _ Hf Ho Hh E) as (A & B & C).
+  destruct (check_conn_J _ _ _ _ Hf Ho Hh HP E) as (A & B & C).
   destruct c as [u | e]; [ | simpl; exact B ].
   rewrite run_bind. pose proof (run_inv _ prim_J _ (send_msgs cfg msgs false) w1 (C u eq_refl)) as HJ.
   destruct (run (send_msgs cfg msgs false) w1) as [bad w2]. simpl in *. apply HJ.
 Qed.
 
 Lemma reset_client_no_hang : forall cfg w, fx_arm cfg = true ->
-  opened (w_conn w) = true -> hung (w_conn w) = false ->
+  opened (w_conn w) = true -> hung (w_conn w) = false -> PipeOk w ->
   hung (w_conn (snd (run (reset_client cfg) w))) = false.
 Proof.
-  intros cfg w Hf Ho Hh. unfold reset_client. rewrite run_bind.
+  intros cfg w Hf Ho Hh HP. unfold reset_client. rewrite run_bind.
   destruct (run (check_conn cfg) w) as [c w1] eqn:E.
-  destruct (check_conn_J _ _ _ _ Hf Ho Hh E) as (A & B & C).
+  destruct (check_conn_J _ _ _ _ Hf Ho Hh HP E) as (A & B & C).
   destruct c as [u | e]; [ | simpl; exact B ].
   pose proof (run_inv _ prim_J _ reset w1 (C u eq_refl)) as HJ. apply HJ.
 Qed.
 
 Lemma close_client_no_hang : forall cfg w, fx_arm cfg = true ->
-  opened (w_conn w) = true -> hung (w_conn w) = false ->
+  opened (w_conn w) = true -> hung (w_conn w) = false -> PipeOk w ->
   hung (w_conn (snd (run (close_client cfg) w))) = false.
 Proof.
-  intros cfg w Hf Ho Hh. unfold close_client. rewrite run_get. rewrite Hf.
+  intros cfg w Hf Ho Hh HP. unfold close_client. rewrite run_get. rewrite Hf.
   destruct (connected (w_cs w)); cbn [negb run]; [ | simpl; exact Hh ].
   unfold update_deadline. rewrite run_bind. rewrite run_bind. unfold prim1. cbn [run].
   destruct (run_prim PArm w) as [ok wa] eqn:Ea.
-  pose proof (arm_J w Ho Hh) as HJ. rewrite Ea in HJ. simpl in HJ. cbn [run].
+  pose proof (arm_J w Ho Hh HP) as HJ. rewrite Ea in HJ. simpl in HJ. cbn [run].
   match goal with |- hung (w_conn (snd (run ?m wa))) = false => pose proof (run_inv _ prim_J _ m wa HJ) as HJ2 end.
   apply HJ2.
 Qed.
 
 Lemma dial_and_send_no_hang : forall fuel cfg msgs w, fx_arm cfg = true -> w_conn w = conn0 ->
+  endresp (w_cs w) = true -> pipe_out (w_cs w) = O ->
   hung (w_conn (snd (run (dial_and_send fuel cfg msgs) w))) = false.
 Proof.
-  intros fuel cfg msgs w Hf H0. unfold dial_and_send. rewrite run_bind.
+  intros fuel cfg msgs w Hf H0 He Hp. unfold dial_and_send. rewrite run_bind.
   destruct (run (dial fuel cfg) w) as [d w1] eqn:E.
-  destruct (dial_J _ _ _ _ _ Hf H0 E) as [A B].
+  destruct (dial_J _ _ _ _ _ Hf H0 He Hp E) as [A B].
   destruct d as [u | e]; [ | simpl; exact A ].
   match goal with |- hung (w_conn (snd (run ?m w1))) = false => pose proof (run_inv _ prim_J _ m w1 (B u eq_refl)) as HJ end.
   apply HJ.
 Qed.
 
 Lemma session_no_hang : forall fuel cfg msgs w, fx_arm cfg = true -> w_conn w = conn0 ->
+  endresp (w_cs w) = true -> pipe_out (w_cs w) = O ->
   hung (w_conn (snd (run (session fuel cfg msgs) w))) = false.
 Proof.
-  intros fuel cfg msgs w Hf H0. unfold session. rewrite run_bind.
+  intros fuel cfg msgs w Hf H0 He Hp. unfold session. rewrite run_bind.
   destruct (run (dial fuel cfg) w) as [d w1] eqn:E.
-  destruct (dial_J _ _ _ _ _ Hf H0 E) as [A B].
+  destruct (dial_J _ _ _ _ _ Hf H0 He Hp E) as [A B].
   destruct d as [u | e]; [ | simpl; exact A ].
   match goal with |- hung (w_conn (snd (run ?m w1))) = false => pose proof (run_inv _ prim_J _ m w1 (B u eq_refl)) as HJ end.
   apply HJ.
 Qed.
 
-(* every read of a run that keeps J was made with a deadline set *)
-Definition ReadsArmed (w : world) : Prop := Jinv w /\ forall e, In e (w_trace w) -> unarmed_read e = false.
+Lemma session2_no_hang : forall fuel cfg msgs w, fx_arm cfg = true -> w_conn w = conn0 ->
+  endresp (w_cs w) = true -> pipe_out (w_cs w) = O ->
+  hung (w_conn (snd (run (session2 fuel cfg msgs) w))) = false.
+Proof.
+  intros fuel cfg msgs w Hf H0 He Hp. unfold session2. rewrite run_bind.
+  destruct (run (dial fuel cfg) w) as [d w1] eqn:E.
+  destruct (dial_J _ _ _ _ _ Hf H0 He Hp E) as [A B].
+  destruct d as [u | e]; [ | simpl; exact A ].
+  match goal with |- hung (w_conn (snd (run ?m w1))) = false => pose proof (run_inv _ prim_J _ m w1 (B u eq_refl)) as HJ end.
+  apply HJ.
+Qed.
+
+(* the pipeline stays in step: after any program run from a state satisfying J no command waits on a predecessor *)
+Lemma pipeline_in_step : forall A (m : prog A) w, Jinv w -> PipeOk (snd (run m w)).
+Proof.
+  intros A m w HJ. pose proof (run_inv _ prim_J _ m w HJ) as (_ & _ & _ & He & Hp). split; assumption.
+Qed.
 
 (* ------------------------------------------------------------------------------------------------ *)
 (* C07: what leaves the process in clear *)
@@ -667,9 +705,9 @@ Definition AllowedInv (S : verb -> bool) (w : world) : Prop :=
 Lemma prim_allowed : forall S B (p : prim B) w, Pany S B p = true -> AllowedInv S w -> AllowedInv S (snd (run_prim p w)).
 Proof.
   intros S B p w HP H. unfold AllowedInv in *.
-  destruct p; simpl in HP; prim_cases; auto; intros v0 Hin; simpl in Hin; auto.
-  destruct (ctls (w_conn w)); simpl in Hin; auto.
-  destruct Hin as [Hin | Hin]; [subst; exact HP | auto].
+  destruct p; simpl in HP; prim_cases; auto; intros v0 Hin; simpl in Hin; auto;
+    destruct (ctls (w_conn w)); simpl in Hin; auto;
+    (destruct Hin as [Hin | Hin]; [subst; exact HP | auto]).
 Qed.
 
 Lemma sat_any_of_w : forall S A (m : prog A), sat (Pw S) A m -> sat (Pany S) A m.
@@ -916,33 +954,33 @@ Lemma C17_dial_no_hang_l : forall fuel cfg (s : srv), fx_arm cfg = true ->
 Proof.
   intros fuel cfg s Hf. unfold outcome_of.
   destruct (run (dial fuel cfg) (world0 s)) as [r w'] eqn:E.
-  destruct (dial_J fuel cfg (world0 s) r w' Hf eq_refl E) as [A _]. simpl. rewrite A. discriminate.
+  destruct (dial_J fuel cfg (world0 s) r w' Hf eq_refl eq_refl eq_refl E) as [A _]. simpl. rewrite A. discriminate.
 Qed.
 
 Lemma C17_dial_and_send_no_hang_l : forall fuel cfg msgs (s : srv), fx_arm cfg = true ->
   outcome_of (run (dial_and_send fuel cfg msgs) (world0 s)) <> Hang.
 Proof.
-  intros. unfold outcome_of. rewrite (dial_and_send_no_hang fuel cfg msgs (world0 s) H eq_refl). discriminate.
+  intros. unfold outcome_of. rewrite (dial_and_send_no_hang fuel cfg msgs (world0 s) H eq_refl eq_refl eq_refl). discriminate.
 Qed.
 
 Lemma C17_session_no_hang_l : forall fuel cfg msgs (s : srv), fx_arm cfg = true ->
   outcome_of (run (session fuel cfg msgs) (world0 s)) <> Hang.
 Proof.
-  intros. unfold outcome_of. rewrite (session_no_hang fuel cfg msgs (world0 s) H eq_refl). discriminate.
+  intros. unfold outcome_of. rewrite (session_no_hang fuel cfg msgs (world0 s) H eq_refl eq_refl eq_refl). discriminate.
 Qed.
 
 Lemma C17_send_no_hang_l : forall cfg msgs w, fx_arm cfg = true ->
-  opened (w_conn w) = true -> hung (w_conn w) = false ->
+  opened (w_conn w) = true -> hung (w_conn w) = false -> PipeOk w ->
   outcome_of (run (send_batch cfg msgs) w) <> Hang.
 Proof. intros. unfold outcome_of. rewrite send_batch_no_hang; auto. discriminate. Qed.
 
 Lemma C17_reset_no_hang_l : forall cfg w, fx_arm cfg = true ->
-  opened (w_conn w) = true -> hung (w_conn w) = false ->
+  opened (w_conn w) = true -> hung (w_conn w) = false -> PipeOk w ->
   outcome_of (run (reset_client cfg) w) <> Hang.
 Proof. intros. unfold outcome_of. rewrite reset_client_no_hang; auto. discriminate. Qed.
 
 Lemma C17_close_no_hang_l : forall cfg w, fx_arm cfg = true ->
-  opened (w_conn w) = true -> hung (w_conn w) = false ->
+  opened (w_conn w) = true -> hung (w_conn w) = false -> PipeOk w ->
   outcome_of (run (close_client cfg) w) <> Hang.
 Proof. intros. unfold outcome_of. rewrite close_client_no_hang; auto. discriminate. Qed.
 
@@ -1024,3 +1062,9 @@ Proof. split; vm_compute; reflexivity. Qed.
 Lemma C17_quick_send_no_hang_l : forall fuel with_auth host fxc fxq fxs nrcpt (s : srv),
   outcome_of (run (quick_send fuel with_auth host fxc fxq true fxs nrcpt) (world0 s)) <> Hang.
 Proof. intros. unfold quick_send. apply C17_dial_and_send_no_hang_l. reflexivity. Qed.
+
+Lemma C17_session2_no_hang_l : forall fuel cfg msgs (s : srv), fx_arm cfg = true ->
+  outcome_of (run (session2 fuel cfg msgs) (world0 s)) <> Hang.
+Proof.
+  intros. unfold outcome_of. rewrite (session2_no_hang fuel cfg msgs (world0 s) H eq_refl eq_refl eq_refl). discriminate.
+Qed.
